@@ -22,7 +22,15 @@ use std::panic::{catch_unwind, AssertUnwindSafe};
 use std::process::{Command, Stdio};
 use verif_harness::{run, sexp::*};
 
-const PROC: &str = "/verif/target/proc";
+/// scratch directory of this run: unique per top-level process, inherited by re-executed children
+fn proc_dir() -> String {
+    if let Ok(d) = std::env::var("VERIF_PROC_DIR") {
+        return d;
+    }
+    let d = format!("/verif/target/proc/{}", std::process::id());
+    std::env::set_var("VERIF_PROC_DIR", &d);
+    d
+}
 const MARK_BEGIN: &str = "/__determinism_marker_begin__";
 const MARK_END: &str = "/__determinism_marker_end__";
 
@@ -208,7 +216,7 @@ fn configure_child(c: &mut Command, a: &Args, k: u64, abs_files: &[String], own_
         }
         c.arg("--opts").arg(a.opts.iter().map(|o| o.to_string()).collect::<Vec<_>>().join(","));
     }
-    let cwd = format!("{PROC}/cwd{k}");
+    let cwd = format!("{}/cwd{k}", proc_dir());
     std::fs::create_dir_all(format!("{cwd}/home")).unwrap();
     std::fs::create_dir_all(format!("{cwd}/tmp")).unwrap();
     let mut r = Rng(k ^ 0xE57);
@@ -343,7 +351,7 @@ fn strace_report(a: &Args, abs_files: &[String]) -> Option<Sexp> {
     if !strace_ok {
         return None;
     }
-    let log = format!("{PROC}/determinism_strace.log");
+    let log = format!("{}/determinism_strace.log", proc_dir());
     let _ = std::fs::remove_file(&log);
     let exe = std::env::current_exe().unwrap();
     let mut c = Command::new("strace");
@@ -474,7 +482,7 @@ fn main() {
         return;
     }
     run::silence_panics();
-    std::fs::create_dir_all(PROC).unwrap();
+    std::fs::create_dir_all(proc_dir()).unwrap();
     let abs_files: Vec<String> = a
         .files
         .iter()
